@@ -2,7 +2,7 @@
 (shared by C01, C02, C03, C06, C09)."""
 import re
 
-from .kernel import (AnchorMissing, ExprBuilder, Loc, access_path, bool_call_switches,
+from .kernel import (guarded_by_variant, AnchorMissing, ExprBuilder, Loc, access_path, bool_call_switches,
                      callee_matches, callee_name, const_switches, const_val, effective_edge,
                      is_local, place_str, pruned, rvalue_operands, specialise, subexprs,
                      variant_edges)
@@ -197,7 +197,7 @@ def life3(r, facts):
     r.require(ok_region, 'State::drop/check-then-act', 'the state lock is released between testing the status for Running and storing Status::Dropped: a final completion processed in between sets Done, which is then overwritten by Dropped and the state is never freed', f.where(test_loc))
     # Dropped is stored only on the Running edge
     for loc in dropped:
-        r.require(f.edge_dominates(run_edge, loc), 'State::drop/dropped-elsewhere', 'Status::Dropped stored on a path where the status is not Running', f.where(loc))
+        r.require(guarded_by_variant(f, ve, loc), 'State::drop/dropped-elsewhere', 'Status::Dropped stored on a path where the status is not Running', f.where(loc))
     # complement: direct free exactly once
     for ce in ve['complement']:
         r.inst('not-Running edge bb%d->bb%d' % ce, f.where(f.term_loc(ce[0])))
